@@ -52,12 +52,21 @@ func C09_Vote() {
 	// ghost: whose PREPAREs the node holds per view (its own PREPARE and the leader's proposal count too)
 	ids0, use0 := []byte{1, byte(me + 1)}, []bool{true, true}
 	ids1, use1 := []byte{2, byte(me + 1)}, []bool{true, true}
+	padded := env.ParamOr("padded_prepare", 0) == 1
 	for i := 1; i < 4; i++ {
 		if i != me {
 			from := env.NondetBool("prepare_from")
 			ids0, use0 = append(ids0, byte(i+1)), append(use0, from)
 			if from {
-				n.deliver(net.pm(i, 1, 0, hash).ToConsensusRawMessage())
+				pm := net.pm(i, 1, 0, hash)
+				if padded && env.NondetBool("this_one_is_padded") {
+					// the member's genuine signature (over the canonical encoding), but the header bytes on the wire carry
+					// extra trailing bytes: accepted, and must not resurface verbatim in the node's proof
+					raw := append(append([]byte{}, pm.Content().SignedHeader().Raw()...), env.NondetBytes("pad", 4)...)
+					c := (&protocol.PrepareContentBuilder{SignedHeader: protocol.BlockRefBuilderFromRaw(raw), Sender: &protocol.SenderSignatureBuilder{MemberId: pm.Content().Sender().MemberId(), Signature: pm.Content().Sender().Signature()}}).Build()
+					pm = interfaces.NewPrepareMessage(c)
+				}
+				n.deliver(pm.ToConsensusRawMessage())
 			}
 		}
 	}
